@@ -111,6 +111,10 @@ func genDeep(s *Stream, cfg genCfg) string {
 		return strings.Repeat("(", d) + leaf() + " + " + leaf() + strings.Repeat(")", d)
 	case 3:
 		d := n / 4
+		if s.Intn(3) == 0 { // calls nested hundreds deep, next to a sibling call
+			d = 500 + s.Intn(400)
+			return "max(" + strings.Repeat("abs(", d) + leaf() + strings.Repeat(")", d) + ", abs(" + leaf() + "), ceil(n1))"
+		}
 		return strings.Repeat("abs(", d) + leaf() + strings.Repeat(")", d)
 	default:
 		d := n / 4
@@ -331,7 +335,7 @@ func (g *gen) num(d int, leaf bool) string {
 		}
 		return "max(an1...)"
 	case 20:
-		return "st1.N"
+		return g.pick([]string{"st1.N", "st2.N", "st2.F", "year", "len"})
 	default:
 		return g.num(d, true)
 	}
@@ -497,7 +501,7 @@ func (g *gen) any(d int, leaf bool) string {
 			return g.freshName()
 		}
 		return g.pick([]string{"Max", "Len", "null", "z1", "this.s1", "o1", "o1.c", "nope", "nope.x", "l1", "st1", "1", "'s'", "true", "$a", "ctx", "m1",
-			"cv.name", "cv.Name", "cv.NAME", "cv.naME", "cv", "tz"})
+			"cv.name", "cv.Name", "cv.NAME", "cv.naME", "cv", "tz", "st2", "st2.N", "st2.S", "year", "len", "upper"})
 	}
 	e := func(t int) string { return g.expr(t, d+1) }
 	switch g.s.Intn(14) {
@@ -569,6 +573,26 @@ type simpleStruct struct {
 	N int
 	S string
 	F float64
+}
+
+// recA and recB are two different types that both print as "main.rec": types local to a function
+// (as two packages api/v1 and api/v2 would both have an Order).
+func recA(n int) interface{} {
+	type rec struct {
+		N int
+		S string
+		F float64
+	}
+	return rec{N: n, S: "ra", F: 2.5}
+}
+
+func recB(n int) interface{} {
+	type rec struct {
+		F float64
+		S string
+		N int
+	}
+	return rec{N: n, S: "rb", F: 3.5}
 }
 
 // otherStruct has the same field names at other positions.
@@ -688,6 +712,16 @@ func (d dataSpec) build(log *hostLog, loc *time.Location) map[string]interface{}
 		"an1": []interface{}{d.num(1), d.num(2), decimal.New(int64(d.Nums[3]), 1)},
 		"st1": simpleStruct{N: d.Nums[0], S: "st", F: 1.5},
 		"an2": []interface{}{d.num(0), d.num(1), d.num(2), d.num(3), d.num(4), d.num(5), d.num(6), d.num(7), d.num(0), d.num(2), d.num(4), d.num(6)},
+	}
+	if d.Flags[3]%2 == 0 {
+		m["st2"] = recA(d.Nums[1])
+	} else {
+		m["st2"] = recB(d.Nums[1])
+	}
+	if d.Flags[4]%4 == 0 { // fields named exactly like builtins, read as plain values
+		m["year"] = d.num(5)
+		m["len"] = d.num(6)
+		m["upper"] = "field"
 	}
 	if d.Flags[2]%2 == 0 { // fields whose names differ from a builtin's only in case
 		m["Max"] = d.num(1)
